@@ -571,6 +571,11 @@ impl Connection {
                 || self.spaces[space_id].immediate_ack_pending;
             if space_id == SpaceId::Data {
                 ack_eliciting |= self.can_send_1rtt(frame_space_1rtt);
+                // While the path is being validated, `populate_packet` adds a PATH_CHALLENGE to every
+                // 1-RTT packet, ACK-only ones included, and the datagram is padded. Such a packet is
+                // ack-eliciting and in flight: unless it is tracked as such, no timer covers its loss
+                // and its bytes stay in flight.
+                ack_eliciting |= self.path.challenge.is_some();
             }
             if close {
                 // A closing packet carries only ACK and CONNECTION_CLOSE frames, whatever else is
